@@ -61,6 +61,12 @@ def c13(tier, seed):
                         ['--cfg=%s-fault-%s' % (fl, fm), '--queuers=3', '--readers=2', '--calls=%d' % calls,
                          '--qsize=%d' % (16 if i % 2 else 4096), '--tun-bp-sleep=1'] + fargs, {}, cpus=6,
                         timeout=300 * scale))
+    # reclaimer-only mode: calls = rounds (each ~0.25 s: the reclaimer batches every 100 ms)
+    for fl in (('memb', 'qsbr') if tier == 'quick' else FLAVORS):
+        out.append(case('%s-reclaimer-only' % fl, 'defer', fl, 'plain',
+                        ['--cfg=%s-reclaimer-only' % fl, '--mode=reclaimer', '--readers=2', '--calls=%d' % (60 * scale),
+                         '--qsize=4096', '--hook-prob=0', '--tun-bp-sleep=1', '--stall-ms=120000'], {}, cpus=4,
+                        timeout=240 * scale))
     out.append(case('memb-nomb', 'defer', 'memb', 'plain',
                     ['--cfg=memb-nomb', '--queuers=3', '--readers=2', '--calls=%d' % (15000 * scale), '--qsize=32'],
                     {'VP_NO_MEMBARRIER': '1'}, cpus=6, timeout=300 * scale))
